@@ -4,8 +4,8 @@ import SaramaVerif.Model.ProduceSet
   Bridge obligations for C04: the fragments of produceSet.buildRequest / add regenerated from /repo on this run
   (request version selection, LastOffsetDelta, OffsetDelta and relative inner offsets, wrapper format and
   timestamp, message format of legacy sets) and the case labels of handleSuccess's `switch block.Err` are what
-  the model uses.  `msg.Offset = block.Offset + int64(i)` sits inside a closure passed to eachPartition, which
-  the translator does not enter: that line is tied by running the real handleSuccess (harness), not here.
+  the model uses; the body of the closure handleSuccess passes to eachPartition (the whole per-block verdict,
+  including `msg.Offset = block.Offset + int64(i)` and the log-append-time override) is bridged too.
 -/
 namespace Bridge.C04
 open Go Model.ProduceSet
@@ -69,5 +69,65 @@ theorem legacy_message_eq (c : Conf) (now fts : Int) (m : Msg) (hv : c.v2 = fals
     buildBatch c p = .msgSet (Gen.C04.addMsgV1 c.v1 0 0 1).1 p.recs := by
   unfold mkRec buildBatch Gen.C04.addMsgV1
   cases c.v1 <;> simp [hv, h3, hc]
+
+/-- `msg.Offset = block.Offset + int64(i)` run over the messages of a partition set -/
+def offsetLoop (base : Int) : Int → List Msg → List (Nat × Int)
+  | _, [] => []
+  | i, m :: t => (m.id, Gen.C04.successOffset base i 0) :: offsetLoop base (i + 1) t
+
+/-- handleSuccess's offset loop, as the source has it now, is the model's `assignOffsets`
+    (no int64 wrap as long as the last assigned offset is representable) -/
+theorem assignOffsets_eq_gen (base : Int) (msgs : List Msg) (i : Int) (hi : 0 ≤ i)
+    (h0 : InI64 (base + i)) (h1 : InI64 (base + i + (msgs.length : Int))) :
+    assignOffsets base i msgs = offsetLoop base i msgs := by
+  induction msgs generalizing i with
+  | nil => rfl
+  | cons m t ih =>
+    simp only [List.length_cons] at h1
+    have e : Gen.C04.successOffset base i 0 = base + i := by
+      unfold Gen.C04.successOffset; exact wrap64_id h0
+    have h0' : InI64 (base + (i + 1)) := by unfold InI64 at *; omega
+    have h1' : InI64 (base + (i + 1) + (t.length : Int)) := by unfold InI64 at *; omega
+    simp only [assignOffsets, offsetLoop, e, ih (i + 1) (by omega) h0' h1']
+
+/-- reading of the model's verdict in the marker values given to the regenerated closure body:
+    (1 returnSuccesses | 2 returnErrors(ErrIncompleteResponse) | 3 returnErrors(block.Err) | 4 retry,
+     offsets assigned, timestamps replaced by the block's log-append time) -/
+def verdictCode : Verdict → Int × Bool × Bool
+  | .successes _ lat => (1, true, lat.isSome)
+  | .successesUnassigned _ => (1, false, false)
+  | .errors e _ => (if e = errIncompleteResponse then 2 else 3, false, false)
+  | .retry _ _ => (4, false, false)
+
+/-- the body of the closure in handleSuccess (one partition set), as the source has it now, is the model's
+    `handleBlock` in its pinned variant: response present, block present -/
+theorem handleBlock_eq_block (c : Conf) (retryMax err base : Int) (lat : Option Int) (msgs : List Msg)
+    (he : err ≠ errIncompleteResponse) :
+    Gen.C04.handleBlock false false err c.v1 lat.isNone retryMax 0 false false 1 2 3 4 true true =
+      verdictCode (handleBlock c false retryMax true (some (err, base, lat)) msgs) := by
+  unfold Gen.C04.handleBlock handleBlock
+  simp only [Bool.false_eq_true, ↓reduceIte, Bool.not_true, errDuplicateSequenceNumber]
+  by_cases h0 : err = 0
+  · subst h0
+    cases c.v1 <;> cases lat <;> simp [verdictCode]
+  · by_cases h46 : err = 46
+    · subst h46; simp [verdictCode]
+    · by_cases hr : err ∈ retriable
+      · have hr' : ((((((err = 2) ∨ (err = 3)) ∨ (err = 5)) ∨ (err = 6)) ∨ (err = 7)) ∨ (err = 19)) ∨ (err = 20) := by
+          simp only [retriable, List.mem_cons, List.not_mem_nil, or_false] at hr; omega
+        by_cases hm : retryMax ≤ 0 <;> simp [h0, h46, hr, hr', hm, verdictCode, he]
+      · have hr' : ¬ (((((((err = 2) ∨ (err = 3)) ∨ (err = 5)) ∨ (err = 6)) ∨ (err = 7)) ∨ (err = 19)) ∨ (err = 20)) := by
+          simp only [retriable, List.mem_cons, List.not_mem_nil, or_false] at hr; omega
+        by_cases hm : retryMax ≤ 0 <;> simp [h0, h46, hr, hr', hm, verdictCode, he]
+
+/-- … no response at all (RequiredAcks NoResponse), or a response without a block for this partition -/
+theorem handleBlock_eq_missing (c : Conf) (retryMax err : Int) (isV1 latZero noBlock : Bool) (msgs : List Msg)
+    (blk : Option (Int × Int × Option Int)) :
+    Gen.C04.handleBlock true noBlock err isV1 latZero retryMax 0 false false 1 2 3 4 true true =
+      verdictCode (handleBlock c false retryMax false blk msgs) ∧
+    Gen.C04.handleBlock false true err isV1 latZero retryMax 0 false false 1 2 3 4 true true =
+      verdictCode (handleBlock c false retryMax true none msgs) := by
+  unfold Gen.C04.handleBlock handleBlock
+  simp [verdictCode]
 
 end Bridge.C04
